@@ -280,6 +280,8 @@ def cases(tier):
             out.append({"sub": "forms", "part": "pricer-copula", "model": dict(cm, exp=exp)})
     for r in (0.02, 0.05):
         out.append({"sub": "forms", "part": "payoff", "r": r})
+    # ------------------------------------------------------------------ twins: two models differing in exactly one thing, both alive
+    out += _twin_cases(tier)
     return out
 
 
@@ -1320,6 +1322,37 @@ def _scripted_default_times_nd(sh, obs, grid, a, d):
     _run_scripted(sh, obs, d, seqs, unds, full=full)
 
 
+def _chain_default_sums(proc, grid, a, o):
+    """the notions of 'total rate of the states with a coordinate below its threshold' of one copula chain object on its credit
+    grid (o = origin coordinate as a tuple): {"mass": sum of chain.model.mass(cell), "sampler": sum of the sampler's own
+    probability * intensity}, number of default states, axes"""
+    from rpylib.grid.grid import Coordinates
+
+    axes_ = [[float(x) for x in ax] for ax in grid.axes]
+    lam = float(proc.intensity_of_jumps)
+    samp = proc.sampling
+    closure = getattr(samp, "probability_to_jump_to_state", None)
+    bucket_p = getattr(samp, "_compute_probability", None)
+    lam_s = float(getattr(samp, "intensity_of_jumps", lam))
+    sums = {"mass": 0.0}
+    if closure is not None or bucket_p is not None:
+        sums["sampler"] = 0.0
+    n_default = 0
+    for idx in itertools.product(*[range(len(ax)) for ax in axes_]):
+        if idx == o:
+            continue
+        if not any(axes_[k][i] < a[k] for k, i in enumerate(idx)):
+            continue
+        n_default += 1
+        lo, hi = _cell(grid, Coordinates(idx))
+        sums["mass"] += float(proc.model.mass(lo, hi))
+        if closure is not None:
+            sums["sampler"] += float(closure(tuple(i - c for i, c in zip(idx, o)))) * lam
+        elif bucket_p is not None:
+            sums["sampler"] += float(bucket_p(tuple(lo), tuple(hi))) * lam_s
+    return sums, n_default, axes_
+
+
 def _chain_copula(sh, case, obs):
     from rpylib.distribution.sampling import SamplingMethod
     from rpylib.grid import spatial as S
@@ -1382,30 +1415,7 @@ def _chain_copula(sh, case, obs):
                          f"axis {k}: middle({axes[k][below]}, {axes[k][below + 1]}) = {mid!r}, threshold {a[k]!r}", {"a": a, "axis": axes[k]})
     # ------------------------------------------------------------------------ (i)
     def chain_sums(proc, grid):
-        """the notions of 'total rate of the states with a coordinate below its threshold' of one chain object"""
-        axes_ = [[float(x) for x in ax] for ax in grid.axes]
-        lam = float(proc.intensity_of_jumps)
-        samp = proc.sampling
-        closure = getattr(samp, "probability_to_jump_to_state", None)
-        bucket_p = getattr(samp, "_compute_probability", None)
-        lam_s = float(getattr(samp, "intensity_of_jumps", lam))
-        sums = {"mass": 0.0}
-        if closure is not None or bucket_p is not None:
-            sums["sampler"] = 0.0
-        n_default = 0
-        for idx in itertools.product(*[range(len(ax)) for ax in axes_]):
-            if idx == o:
-                continue
-            if not any(axes_[k][i] < a[k] for k, i in enumerate(idx)):
-                continue
-            n_default += 1
-            lo, hi = _cell(grid, Coordinates(idx))
-            sums["mass"] += float(proc.model.mass(lo, hi))
-            if closure is not None:
-                sums["sampler"] += float(closure(tuple(i - c for i, c in zip(idx, o)))) * lam
-            elif bucket_p is not None:
-                sums["sampler"] += float(bucket_p(tuple(lo), tuple(hi))) * lam_s
-        return sums, n_default, axes_
+        return _chain_default_sums(proc, grid, a, o)
 
     try:
         sums, n_default, _ = chain_sums(proc, grid)
@@ -1902,10 +1912,308 @@ def _forms(sh, case, obs):
 
 
 # ----------------------------------------------------------------------------------------------------------------------
+# twins: two models that differ in exactly ONE thing, alive together, asked alternately at the SAME thresholds
+# ----------------------------------------------------------------------------------------------------------------------
+
+# the other value of every constructor parameter of the parameter classes (different from the library defaults and from every
+# parameter set of mc.alphabets); y of CGMY: base + 0.2 (stays on the same side of 1)
+TWIN_VALUES = {
+    "hem": {"sigma": 0.08, "p": 0.35, "eta1": 14.0, "eta2": 32.0, "intensity": 4.5},
+    "merton": {"sigma": 0.08, "sigma_j": 0.08, "mu_j": 0.04, "intensity": 4.5},
+    "vg": {"sigma": 0.13, "nu": 0.09, "theta": -0.05},
+    "cgmy": {"c": 0.6, "g": 11.0, "m": 13.0, "y": None},
+}
+TWIN_MODEL_ARGS = {"spot": 80.0, "r": 0.05, "d": 0.01}  # constructor arguments of the exponential models
+TWIN_PARTNER = {"hem": "hem2", "merton": "hem", "vg": "hem", "cgmy05": "hem", "cgmy12": "hem"}
+TWIN_COPULAS = [  # (base, twin): Clayton theta only, Clayton eta only
+    ({"kind": "clayton", "theta": 0.7, "eta": 0.3}, {"kind": "clayton", "theta": 3.0, "eta": 0.3}),
+    ({"kind": "clayton", "theta": 0.7, "eta": 0.3}, {"kind": "clayton", "theta": 0.7, "eta": 1.0}),
+]
+MODEL_COPIERS = ("deepcopy", "copy", "dill")
+
+
+def _twin_cases(tier):
+    thorough = tier == "thorough"
+    cop0 = TWIN_COPULAS[0][0]
+    out = []
+
+    def add(margins, copula, exp, vary, h=HS[0], chain=True):
+        out.append({"sub": "twins", "margins": list(margins), "copula": copula, "exp": exp, "h": h, "vary": vary, "chain": chain})
+
+    exps = (True, False) if thorough else (True,)
+    for name in ("hem", "merton", "vg", "cgmy05", "cgmy12"):
+        fam = A.MARGINS[name]["family"]
+        for exp in (True, False):
+            for pos in ((0, 1) if thorough else ((0,) if exp else (1,))):
+                margins = (name, TWIN_PARTNER[name]) if pos == 0 else (TWIN_PARTNER[name], name)
+                for par in TWIN_VALUES[fam]:
+                    add(margins, cop0, exp, {"kind": "margin-parameter", "position": pos, "name": par})
+    for arg in TWIN_MODEL_ARGS:
+        add(("hem", "hem2"), cop0, True, {"kind": "model-argument", "position": 0, "name": arg})
+    for base, twin in TWIN_COPULAS:
+        for shared in (False, True):
+            for exp in exps:
+                add(("hem", "vg"), base, exp, {"kind": "copula", "other": twin, "shared_margins": shared})
+    for exp in exps:
+        add(("hem", "hem2"), cop0, exp, {"kind": "margin-order"})
+        add(("cgmy05", "cgmy12"), cop0, exp, {"kind": "margin-order"})
+    # three names: one parameter of one margin (the jump-direction weight / the activity index), the copula, the order
+    triples = [(("hem", "hem2", "cgmy05"), 0, "p"), (("cgmy05", "cgmy12", "hem2"), 1, "y")]
+    if thorough:
+        triples += [(("hem", "hem2", "cgmy05"), 1, par) for par in TWIN_VALUES["hem"]]
+        triples += [(("hem", "vg", "cgmy05"), 1, par) for par in TWIN_VALUES["vg"]]
+    for margins, pos, par in triples:
+        add(margins, cop0, True, {"kind": "margin-parameter", "position": pos, "name": par}, chain=thorough)
+    add(("hem", "hem2", "cgmy05"), cop0, True, {"kind": "copula", "other": TWIN_COPULAS[0][1], "shared_margins": False}, chain=thorough)
+    add(("hem", "hem2", "cgmy05"), cop0, True, {"kind": "margin-order"}, chain=thorough)
+    if thorough:
+        for c in A.copula_specs(tier):
+            if c == cop0:
+                continue
+            add(("hem", "hem2"), c, True, {"kind": "margin-parameter", "position": 0, "name": "p"})
+            add(("cgmy05", "hem"), c, True, {"kind": "margin-parameter", "position": 0, "name": "y"})
+        for h in HS[1:]:
+            for par in TWIN_VALUES["hem"]:
+                add(("hem", "hem2"), cop0, True, {"kind": "margin-parameter", "position": 0, "name": par}, h=h)
+    return out
+
+
+def _margin_spec(name, exp):
+    """the margin `name` of mc.alphabets with EVERY constructor parameter written out (read from the model built with the
+    alphabet's spec), so that a twin can replace exactly one of them"""
+    import inspect
+
+    ms = dict(A.MARGINS[name])
+    if exp:
+        ms = dict(ms, exp=True, r=0.02, d=0.0, spot=100.0)
+    m = A.make_model(ms)
+    par = (m.levy_model if exp else m).parameters
+    names = [n for n in inspect.signature(type(par).__init__).parameters if n != "self"]
+    return dict(ms, params={n: getattr(par, n) for n in names})
+
+
+def _twin_models(sh, case):
+    """(base model, twin model, label of the difference). Every margin object is built for its model alone unless the case says
+    `shared_margins` (a copula re-calibrated on the same margin objects)."""
+    from rpylib.model.utils import create_levy_copula_model
+
+    exp, vary = bool(case["exp"]), case["vary"]
+    base = [_margin_spec(n, exp) for n in case["margins"]]
+    twin = [dict(ms, params=dict(ms["params"])) for ms in base]
+    cop_b, cop_t = case["copula"], case["copula"]
+    kind = vary["kind"]
+    if kind == "margin-parameter":
+        ms = twin[vary["position"]]
+        fam, name = ms["family"], vary["name"]
+        missing = sorted(set(ms["params"]) - set(TWIN_VALUES[fam]))
+        if missing:  # a constructor parameter this alphabet does not know of: say so, do not pretend completeness
+            sh.cap(f"twins: constructor parameter(s) {missing} of the {fam} parameters have no twin value")
+        if name not in ms["params"]:
+            raise A.OutsideAlphabet(f"{fam} parameters have no constructor parameter {name}")
+        value = TWIN_VALUES[fam][name]
+        ms["params"][name] = float(ms["params"][name]) + 0.2 if value is None else value
+        label = f"{fam}.{name}@{vary['position']}"
+    elif kind == "model-argument":
+        twin[vary["position"]][vary["name"]] = TWIN_MODEL_ARGS[vary["name"]]
+        label = f"{twin[vary['position']]['family']}-model.{vary['name']}@{vary['position']}"
+    elif kind == "copula":
+        cop_t = vary["other"]
+        diff = [k for k in sorted(set(cop_b) | set(cop_t)) if cop_b.get(k) != cop_t.get(k)]
+        label = "copula." + "+".join(diff) + (":shared-margin-objects" if vary.get("shared_margins") else "")
+    elif kind == "margin-order":
+        twin = twin[::-1]
+        label = "margin-order"
+    else:
+        raise ValueError(kind)
+    margins_b = [A.make_model(ms) for ms in base]
+    try:
+        margins_t = margins_b if (kind == "copula" and vary.get("shared_margins")) else [A.make_model(ms) for ms in twin]
+    except ValueError as e:  # a value the parameter class rejects is not a model
+        raise A.OutsideAlphabet(f"twin {label}: {e}")
+    m_b = create_levy_copula_model(models=margins_b, copula=A.make_copula(cop_b))
+    m_t = create_levy_copula_model(models=margins_t, copula=A.make_copula(cop_t))
+    return m_b, m_t, label
+
+
+def _twin_margins(sh, case, obs, models, nus, levels, icls, label):
+    """the one-name closed forms of the margin that differs between the twins (CFLevyModel on the base margin and on the twin
+    margin, alternately at the same thresholds), each against nu((-inf, a]) of its own measure"""
+    from rpylib.numerical.closedform.cflevymodel import CFLevyModel
+
+    vary = case["vary"]
+    if vary["kind"] not in ("margin-parameter", "model-argument"):
+        return
+    pos = vary["position"]
+    T, R = MATURITIES[0], RECOVERIES[-1]
+    pricers = [CFLevyModel(model.models[pos]) for model in models]
+    for a in levels:
+        for w in (0, 1):
+            ref = float(nus[w][pos].integrate(-INF, a))
+            got = [("_theta", float(pricers[w]._theta(a)), ref),
+                   ("survival_probability", float(pricers[w].survival_probability(a, T)), math.exp(-ref * T)),
+                   ("cds_spread", float(pricers[w].cds_spread(level_a=a, recovery_rate=R)), (1.0 - R) * ref)]
+            for what, val, exp_ in got:
+                obs.add(val)
+                sh.count("evaluations")
+                sh.count("twin_comparisons")
+                if not core.close(val, exp_, rtol=RTOL):
+                    sh.violation(f"C19:twins:CFLevyModel.{what}:ne-reference-of-its-own-model:asked-alternately:{('base', 'twin')[w]}:{icls}",
+                                 f"margin {pos} of the {('base', 'twin')[w]} model: {what}({a}) = {val!r}, nu((-inf, a]) reference of that "
+                                 f"margin = {exp_!r} (difference: {label})", {"a": a, "got": val, "expected": exp_, "difference": label})
+
+
+def _twins(sh, case, obs):
+    """Two Levy-copula models that differ in exactly one constructor parameter of one margin | one constructor argument of an
+    exponential margin | one copula parameter | the order of the margins, both alive in the process, asked alternately at the SAME
+    threshold vectors / on credit grids of the same h and thresholds; each answer is judged against the reference of ITS OWN
+    model (inclusion-exclusion of mc.oracle.ref_rectangle_mass, which never touches the copula model object). Then the
+    copy.deepcopy / copy.copy / dill round trip of each model must answer like its original, and the originals must answer as
+    before after chains (which work on truncated deep copies) were built on them."""
+    from rpylib.distribution.sampling import SamplingMethod
+    from rpylib.grid import spatial as S
+    from rpylib.numerical.closedform.cflevycopula import CFLevyCopulaModel
+    from rpylib.process.markovchain.markovchainlevycopula import MarkovChainLevyCopula
+
+    h = float(case["h"])
+    try:
+        models = list(_twin_models(sh, case))
+    except A.OutsideAlphabet as e:
+        sh.count("excluded_twin_outside_alphabet")
+        sh.note(str(e))
+        sh.outcome("excluded")
+        return
+    label = models.pop()
+    d = models[0].dimension()
+    spec = {"margins": case["margins"], "copula": case["copula"], "exp": case["exp"]}
+    icls = f"vary={label}:{_cclass(spec)}"
+    sh.cls("twins-" + case["vary"]["kind"])
+    sh.cls(f"twins-d={d}")
+    who = ("base", "twin")
+    nus = [[m.levy_triplet.nu for m in model.models] for model in models]
+    cops = [model.copula for model in models]
+    rs = [float(model.models[0].r) if case["exp"] else None for model in models]
+    ls = [float(S.compute_truncation(model=model, h=h)[0]) for model in models]
+    l = max(ls)  # the SAME thresholds for both models, inside (l, -h) of either
+    tuples = [tuple(float(f * l) for f in fr) for fr in itertools.product(FRACS, repeat=d)]
+    tuples = [a for a in tuples if all(l < x < -h for x in a)]
+    if not tuples:
+        sh.count("excluded_threshold_outside_(l,-h)")
+        sh.outcome("excluded")
+        return
+    a_uneq = tuple(float(f * l) for f in FRACS[::-1][:d])
+    refs = {}
+
+    def ref_of(w, a):
+        if (w, a) not in refs:
+            refs[(w, a)] = _union_mass_ref(cops[w], nus[w], a)
+        return refs[(w, a)]
+
+    def judge(w, a, pricer, comp, how, full):
+        """theta, survival probability, par spread (and, full, the implied spread) of `pricer`, which holds models[w] or a copy"""
+        ref, sabs = ref_of(w, a)
+        T, R = MATURITIES[0], RECOVERIES[-1]
+        got = [("_theta", float(pricer._theta(list(a))), ref),
+               ("survival_probability", float(pricer.survival_probability(list(a), T)), math.exp(-ref * T)),
+               ("first_to_default_par_spread", float(pricer.first_to_default_par_spread(levels_a=list(a), recovery_rate=R)), (1.0 - R) * ref)]
+        if full and rs[w] is not None:
+            s = SPREADS[-1]
+            dl, fl = _legs(ref, rs[w], R, MATURITIES[-1])
+            got.append(("implied_cds_spread", float(pricer.implied_cds_spread(pv=dl - s * fl, level_a=list(a), recovery_rate=R,
+                                                                             maturity=MATURITIES[-1])), s))
+        sh.nontriv()
+        for what, val, exp_ in got:
+            obs.add(val)
+            sh.count("evaluations")
+            sh.count("twin_comparisons")
+            if not core.close(val, exp_, rtol=RTOL, scale=max(sabs, abs(exp_)), atol=1e-10 if what == "implied_cds_spread" else 0.0):
+                wrong.append(w)
+                sh.violation(f"C19:twins:{comp}.{what}:ne-reference-of-its-own-model:{how}:{who[w]}:{icls}",
+                             f"{who[w]} model ({how}): {what}({list(a)}) = {val!r}, reference of that model = {exp_!r}; the other model "
+                             f"(difference: {label}) has theta = {ref_of(1 - w, a)[0]!r}",
+                             {"a": list(a), "which": who[w], "got": val, "expected": exp_, "theta_of_the_other_model": ref_of(1 - w, a)[0],
+                              "difference": label, "how": how})
+        return got[0][1]
+
+    comp = "CFLevyCopulaModel"
+    wrong = []
+    try:
+        _twin_margins(sh, case, obs, models, nus, sorted(set(x for a in tuples for x in a)), icls, label)
+        pricers = [CFLevyCopulaModel(model) for model in models]
+        thetas = {}
+        for a in tuples:
+            for w in (0, 1):
+                thetas[(w, a)] = judge(w, a, pricers[w], comp, "asked-alternately", a == a_uneq)
+        sh.outcome(("twin-thetas", float(thetas[(0, tuples[0])]).hex(), float(thetas[(1, tuples[0])]).hex()))
+        sh.cls("twins-measures-differ" if ref_of(0, tuples[0])[0] != ref_of(1, tuples[0])[0] else "twins-measures-equal")
+        if wrong:  # reported above: once, not once more per copy / re-read
+            sh.count("twin_follow_ups_skipped_first_answers_wrong")
+            return
+        # the first model again, on a fresh pricer, after the second one answered at the same thresholds
+        for a in tuples[:1] + ([a_uneq] if a_uneq in tuples[1:] else []):
+            judge(0, a, CFLevyCopulaModel(models[0]), comp, "asked-again-after-the-other", False)
+        # copies of each model answer like the original (and like the reference of that model)
+        for w in (0, 1):
+            for how in MODEL_COPIERS:
+                a = a_uneq if a_uneq in tuples else tuples[0]
+                th = judge(w, a, CFLevyCopulaModel(COPIERS[how](models[w])), comp, "model-" + how, False)
+                sh.count("evaluations")
+                if not core.close(th, thetas[(w, a)], rtol=FORM_RTOL):
+                    sh.violation(f"C19:twins:{comp}._theta:copy-ne-original:model-{how}:{who[w]}:{icls}",
+                                 f"theta({list(a)}) of the {how} of the {who[w]} model = {th!r}, of the original = {thetas[(w, a)]!r}",
+                                 {"a": list(a), "copy": th, "original": thetas[(w, a)], "how": how})
+    except Exception as e:
+        sh.violation(f"C19:twins:{comp}:raises-{type(e).__name__}:{icls}", f"{type(e).__name__}: {e}", {"case": case})
+        return
+    sh.sample({"sub": "twins", "difference": label, "model": _cclass(spec), "a": list(tuples[0]),
+               "theta_base": thetas[(0, tuples[0])], "theta_twin": thetas[(1, tuples[0])]})
+    # ------------------------------------------------------------------------ the chains of both models on credit grids of the same
+    # h and thresholds, both alive, read alternately (base, twin, base again)
+    if not case.get("chain") or a_uneq not in tuples:
+        return
+    comp = "MarkovChainLevyCopula"
+    a = list(a_uneq)
+    for sym in (True, False):
+        method = SamplingMethod.INVERSION if sym else SamplingMethod.BINARYSEARCHTREEADAPTED
+        tag = "sym" if sym else "asym"
+        try:
+            grids = [S.CTMCCredit(h=h, level_a=list(a), model=model, symmetric_grid=sym) for model in models]
+            if any(not ax[i] < ax[i + 1] for g in grids for ax in ([float(x) for x in ax_] for ax_ in g.axes) for i in range(len(ax) - 1)):
+                sh.count("skipped_malformed_grid")  # reported by the chain-copula sub-check under its own key
+                continue
+            with _no_vol_adjustment_pool():
+                procs = [MarkovChainLevyCopula(levy_copula_model=model, grid=g, method=method) for model, g in zip(models, grids)]
+            for w, how in ((0, "read-first"), (1, "read-after-the-other"), (0, "read-again-after-the-other")):
+                g = grids[w]
+                box = [(float(t[0]), float(t[1])) for t in g.truncations]
+                ref, sabs = _box_intensity_ref(cops[w], nus[w], box, a)
+                sums, n_default, _ = _chain_default_sums(procs[w], g, a, tuple(int(c) for c in g.origin_coordinate))
+                sh.nontriv()
+                for via, tot in sums.items():
+                    obs.add(tot)
+                    sh.count("evaluations")
+                    sh.count("twin_comparisons")
+                    if not core.close(tot, ref, rtol=RTOL, scale=sabs):
+                        sh.violation(f"C19:twins:{comp}:default-rate-ne-box-intensity-of-its-own-model:via={via}:{how}:{who[w]}:{tag}:{icls}",
+                                     f"{who[w]} model ({how}): sum of the rates of the {n_default} default states = {tot!r}, inclusion-exclusion "
+                                     f"of its joint measure on the box = {ref!r} (a={a}, h={h}, difference: {label})",
+                                     {"a": a, "h": h, "symmetric": sym, "rate": tot, "box_intensity": ref, "via": via, "which": who[w],
+                                      "difference": label})
+        except Exception as e:
+            sh.violation(f"C19:twins:{comp}:raises-{type(e).__name__}:{tag}:{icls}", f"{type(e).__name__}: {e} (a={a}, h={h})", {"case": case})
+            continue
+    # the originals after chains (which deep-copy and truncate the model) were built on them
+    try:
+        for w in (0, 1):
+            judge(w, a_uneq, CFLevyCopulaModel(models[w]), "CFLevyCopulaModel", "after-chains-were-built-on-the-model", False)
+    except Exception as e:
+        sh.violation(f"C19:twins:CFLevyCopulaModel:raises-{type(e).__name__}:{icls}", f"{type(e).__name__}: {e} (after the chains)", {"case": case})
+
+
+# ----------------------------------------------------------------------------------------------------------------------
 # driver
 # ----------------------------------------------------------------------------------------------------------------------
 
-_SUBS = {"one-dim": _one_dim, "cf-copula": _cf_copula, "chain-copula": _chain_copula, "forms": _forms}
+_SUBS = {"one-dim": _one_dim, "cf-copula": _cf_copula, "chain-copula": _chain_copula, "forms": _forms, "twins": _twins}
 
 
 def check_case(sh, case):
